@@ -13,7 +13,7 @@ cp SEED/patch.diff $OUT/patch.diff
 cp SEED/*.rs $OUT/ 2>/dev/null; cp SEED/notes.md $OUT/notes.md 2>/dev/null
 log=$OUT/verify.log; : > $log
 find crates -name '*.rs' | xargs touch
-git checkout -q -- . ; git clean -fdq -e SEED -e "crates/*/tests/seed_*" >/dev/null 2>&1
+git checkout -q -- .
 echo "== demo WITHOUT patch" >> $log
 cargo test -p $CRATE --offline --test $DEMO "$@" >> $log 2>&1; r_without=$?
 git apply SEED/patch.diff >> $log 2>&1 || { echo "patch does not apply" >> $log; }
